@@ -59,8 +59,11 @@ theorem c05_scope_meaning (cfg : Cfg) (r : NormRes) (h : passesFilters cfg r = t
 translated from the source on every run (the conjunction of the enclosing conditions of each). -/
 
 open Zeno.Model.Scope in
-/-- the translated tests reject exactly what the property says is out of scope, for **every** valuation of what they look at (are include
+/-- every test was understood by the translator, and the translated tests reject exactly what the property says is out of scope, for **every** valuation of what they look at (are include
 filters configured; does the host / text contain an include or exclude entry; does an exclusion regex match) … -/
+theorem c05_scope_tests_known : (S.scopeGuards.all SCond.known && !S.scopeGuards.isEmpty) = true := by decide
+
+open Zeno.Model.Scope in
 theorem c05_scope_tests_translated (v : SAtom → Bool) : rejectsBy S.scopeGuards v = specRejects v := by
   have h : ∀ b1 b2 b3 b4 b5 b6 b7, rejectsBy S.scopeGuards (valuation b1 b2 b3 b4 b5 b6 b7) = specRejects (valuation b1 b2 b3 b4 b5 b6 b7) := by
     decide
